@@ -103,6 +103,7 @@ theorem exJT0 : JT exCfg hxG exX0 exK0T where
     subst this
     decide
   qsuf := List.suffix_refl _
+  credN := List.nodup_nil
   phase := ex4JQ0
 
 /-- the skeleton after the whole history: both windows closed, w1 gone -/
@@ -142,18 +143,15 @@ theorem exRunOKT : RunOKT exCfg hxG exK0T exEvsT := by
       simpa using h'
     rcases this with rfl | rfl | rfl | rfl <;> decide
 
-/-- the state hypothesis of the removal holds in both runs: one credit entry per key and no unmined credit when
-    RemoveWallet is called -/
+/-- the state hypothesis of the removal holds in both runs: no unmined credit when RemoveWallet is called -/
 theorem exGuard (cr : Bool) : GuardT exCfg cr exX0 exEvsT := by
   refine ⟨trivial, trivial, trivial, trivial, trivial, trivial, trivial, trivial, trivial, trivial, trivial, trivial,
-    trivial, trivial, trivial, trivial, trivial, trivial, ⟨?_, ?_⟩, trivial, trivial, trivial, trivial⟩
-  · show (List.map _ _).Nodup
-    cases cr <;> decide
-  · intro X _ e he
-    have : (runT exCfg cr exX0 (exEvsT.take 18)).P.led.pendCred = [] := by cases cr <;> decide
-    have he' : e ∈ (runT exCfg cr exX0 (exEvsT.take 18)).P.led.pendCred := he
-    rw [this] at he'
-    cases he'
+    trivial, trivial, trivial, trivial, trivial, trivial, ?_, trivial, trivial, trivial, trivial⟩
+  intro X _ e he
+  have : (runT exCfg cr exX0 (exEvsT.take 18)).P.led.pendCred = [] := by cases cr <;> decide
+  have he' : e ∈ (runT exCfg cr exX0 (exEvsT.take 18)).P.led.pendCred := he
+  rw [this] at he'
+  cases he'
 
 /-- the run that never stops ends with nothing queued … -/
 theorem exQuietTT : (runT exCfg false exX0 exEvsT).queue = [] := by decide
